@@ -40,7 +40,7 @@ ASSUMPTIONS = [
 MIN_NONTRIVIAL = 20
 TOL = 1e-9
 NAMES = ["x", "y", "z"]
-LAYOUTS = ["range", "shuffled", "idx", "frame", "particle"]
+LAYOUTS = ["range", "shuffled", "idx", "frame", "particle", "frame_stale"]
 
 
 def init(ctx):
@@ -212,6 +212,12 @@ def build_frame(inp, order=None):
         t = t.set_index("frame", drop=False)
     elif lay == "particle":
         t = t.set_index("particle", drop=False)
+    elif lay == "frame_stale":
+        # an index NAMED 'frame' whose labels are no longer the frame numbers (the column was
+        # renumbered / rebinned after the index had been set): the column is what counts
+        import pandas as pd
+        vals = t["frame"].values
+        t.index = pd.Index([int(v) * 2 + 3 for v in vals[::-1]], name="frame")
     assert nd == sum(1 for c in inp["cols"] if c in NAMES)
     return t
 
@@ -342,6 +348,28 @@ def run_case(ctx, inp):
     except Exception as e:
         pv("compute_drift-raises", "compute_drift (permuted rows) raised %s: %s"
            % (type(e).__name__, str(e)[:200]))
+
+    # ---- the same table in another length unit ------------------------------------------
+    # the drift is a mean of displacements: multiplying every position by a power of two (exact in
+    # binary floating point) must multiply the curve by the same factor, however small the unit
+    kpow = [-50, -40, 30][(len(rows) + nd) % 3]
+    if not inp.get("int_pos"):
+        t3 = build_frame(inp)
+        for c in names:
+            t3[c] = t3[c] * 2.0 ** kpow
+        try:
+            d3 = compute_drift(t3) if pc is None else compute_drift(t3, pos_columns=pc)
+            fr3, cv3 = curve_of(d3, nd)
+            if fr3 != fr or any(not (a * 2.0 ** kpow == b or (a != a and b != b))
+                                for c in cv for a, b in zip(cv[c], cv3[c])):
+                pv("unit-dependence", "compute_drift of the table with every position multiplied by 2^%d is "
+                   "not 2^%d times the drift" % (kpow, kpow),
+                   impl=dict(frames=fr3, values={c: [v / 2.0 ** kpow for v in cv3[c]] for c in cv3}),
+                   model=dict(frames=fr, values=cv))
+            res.stat("unit_scale_checked")
+        except Exception as e:
+            pv("compute_drift-raises", "compute_drift (positions times 2^%d) raised %s: %s"
+               % (kpow, type(e).__name__, str(e)[:200]))
 
     # ---- subtract_drift ----------------------------------------------------------------
     xd = inp.get("xdrift")
